@@ -291,7 +291,8 @@ func (v *verifServer) doctor13(ch *clientHelloMsg, pinSuite uint16, afterHRR boo
 		}
 	}
 	g := s.Group
-	if g == 0 && afterHRR {
+	if afterHRR && (g == 0 || !verifImplGroup13(g)) {
+		// answer with the share the HRR asked for (a forced group nobody implements is written over it later)
 		g = s.HRRGroup
 	}
 	if g != 0 && verifImplGroup13(g) {
